@@ -489,6 +489,13 @@ func (w *C02) Run(t *rt.Tape, trace bool) *core.Result {
 	}
 	circ := gen.Circuit(t, opts)
 	in := gen.Inputs(t, circ)
+	if t.Choose(rt.SGen, 8) == 0 {
+		// a circuit put together by hand (a struct literal: the type has no constructor): gates, wires
+		// and signature are there, the gate statistics - a report, filled in by the parsers and the
+		// compiler - were never computed
+		circ.Stats = circuit.Stats{}
+		res.Reach["circuit.hand-built-without-statistics"]++
+	}
 	if w.Compiled != nil && !small && t.Choose(rt.SGen, 5) == 0 {
 		// a circuit compiled from an MPCL program (compound and array arguments,
 		// multi-output signatures as the compiler produces them)
